@@ -290,15 +290,8 @@ def gen(rng, prop=None):
                         x[1] = rid
                         rid += 1
                 rid += 3
-        if torder != ["IN", "OUT", "INTRA"]:
-            # the tables of a sheet may come in any order: rows are numbered as they will lie in the sheet
-            rid = 3
-            for tbl in torder:
-                for x in rows:
-                    if x[0] == tbl:
-                        x[1] = rid
-                        rid += 1
-                rid += 3
+        # rows are numbered as they will lie in the sheet (the tables may come in any order; rows dropped above leave no gap)
+        renumber(rows, torder, {})
         # amounts that survive the float round trip exactly (<= 1e15 units); prices are re-read through eff()
         assets[a] = rows
         cfee[a] = {}
